@@ -36,7 +36,7 @@ func init() {
 	register(&Scenario{ID: "C08S", Run: func(s *kernel.Sim) { runC08(s, false) }})
 }
 
-var c08Classes = []string{"change-flow", "add-flow", "remove-flow", "bad-base64", "invalid-flow", "bad-quota", "gateway-config-only", "change-flow+quota", "shrink-flow"}
+var c08Classes = []string{"change-flow", "add-flow", "remove-flow", "bad-base64", "invalid-flow", "bad-quota", "gateway-config-only", "change-flow+quota", "shrink-flow", "bad-metrics", "change-metrics"}
 
 func probeFlow(name, url string, status int) string {
 	return flowDef{
@@ -114,8 +114,16 @@ func dirDigest(dir string) map[string]string {
 		out[rel] = hex.EncodeToString(h[:8])
 		return nil
 	})
+	// the gateway's built-in default metrics file lives outside the configuration
+	// directory; it is a configuration file too and no update may touch it
+	if b, err := os.ReadFile(os.Getenv("LUNAR_PROXY_METRICS_CONFIG_DEFAULT")); err == nil {
+		h := sha256.Sum256(b)
+		out[c08DefaultMetrics] = hex.EncodeToString(h[:8])
+	}
 	return out
 }
+
+const c08DefaultMetrics = "<built-in default metrics file>"
 
 func digestOf(files map[string]string) map[string]string {
 	out := map[string]string{}
@@ -218,7 +226,7 @@ func c08Payload(class string, endpoint string, old map[string]string) (body []by
 	b64 := func(s string) string { return base64.StdEncoding.EncodeToString([]byte(s)) }
 	flows := map[string]string{}
 	quotas := map[string]string{}
-	gw := ""
+	gw, metricsCfg := "", ""
 	valid = true
 	complete := endpoint == "/apply_flows" // apply_flows replaces everything: send the complete set
 	if complete {
@@ -257,6 +265,13 @@ func c08Payload(class string, endpoint string, old map[string]string) (body []by
 			// apply_flows wipes everything first; a gateway-only payload leaves no flows
 			flows, quotas = map[string]string{}, map[string]string{}
 		}
+	case "bad-metrics": // valid flows, a metrics file that does not load: rejected at the last reload step
+		flows["f1.yaml"] = probeFlow("f1", "a.com/p1", 421)
+		metricsCfg = "general_metrics:\n  label_value: [unclosed\n\t- broken: yes\n"
+		valid = false
+	case "change-metrics":
+		flows["f1.yaml"] = probeFlow("f1", "a.com/p1", 421)
+		metricsCfg = old["metrics.yaml"] + "\n# changed\n"
 	case "change-flow+quota":
 		flows["f2.yaml"] = probeFlow("f2", "a.com/p4", 414)
 		quotas["q2.yaml"] = strings.ReplaceAll(strings.ReplaceAll(c08Quota, "cq", "cq2"), "a.com/p1", "b.io/x") // one quota file per host
@@ -282,6 +297,9 @@ func c08Payload(class string, endpoint string, old map[string]string) (body []by
 	if gw != "" {
 		payload["gateway_config"] = b64(gw)
 	}
+	if metricsCfg != "" {
+		payload["metrics"] = b64(metricsCfg)
+	}
 	body, _ = json.Marshal(payload)
 	expect = map[string]string{}
 	if !complete {
@@ -298,6 +316,10 @@ func c08Payload(class string, endpoint string, old map[string]string) (body []by
 	if gw != "" {
 		expect["gateway_config.yaml"] = gw
 	}
+	if metricsCfg != "" {
+		expect["metrics.yaml"] = metricsCfg
+	}
+	expect[c08DefaultMetrics] = old["metrics.yaml"] // written by newC08Env from the same source, never to change
 	return body, expect, valid
 }
 
